@@ -78,8 +78,15 @@ def evaluate(mod, lines, wd, tag, env=None):
             except Exception as ex:  # an oracle that cannot read the observation is a failure, not a pass
                 spec.append("FAIL oracle exception: %r" % (ex,))
     else:
-        spec_in = ["spec:%s %s | %s" % (mod.ID, c, o) for c, o in zip(lines, impl)]
-        spec = run_sharded(DRIVER_BIN, spec_in, wd, tag + "-spec", timeout=mod_timeout(mod))
+        # cases with one of mod.NO_SPEC_PREFIXES are judged by the model comparison alone (the extracted spec function
+        # reads the other executor's case format)
+        nospec = tuple(getattr(mod, "NO_SPEC_PREFIXES", ()))
+        idx = [i for i, c in enumerate(lines) if not (nospec and c.startswith(nospec))]
+        spec_in = ["spec:%s %s | %s" % (mod.ID, lines[i], impl[i]) for i in idx]
+        got = run_sharded(DRIVER_BIN, spec_in, wd, tag + "-spec", timeout=mod_timeout(mod))
+        spec = ["OK"] * len(lines)
+        for i, x in zip(idx, got):
+            spec[i] = x
     return impl, model, spec
 
 
